@@ -721,7 +721,7 @@ def run(chk) -> None:
 MANIFEST_ENTRY = {
     "text": "Static writer/reader agreement on the current source of parser_v2.py: the PDB line formatter's column layout (derived from format specs and justification widths) equals the reader's slices and the wwPDB table for all 15 fields "
     "and adds up to 80; MODEL/TER lines likewise; write_pdb's guarded write sequence equals the MODEL/TER/ENDMDL/END automaton (TER before every ENDMDL and at every chain change); the three encodings of the PDB<->mmCIF field map agree; "
-    "formal charge is converted between domains; written placeholders are nulls for the reader; precisions .3f/.2f. Column and mapping slips need particular value shapes to show in a round trip; here they are decided for all values.",
+    "formal charge is converted between domains; written placeholders are nulls for the reader; precisions .3f/.2f. Column and mapping slips need particular value shapes to show in a round trip; here they are decided for all values. Since round 4 the four round trips, both parse_*_atoms and both writers are also interpreted as wholes on one table per input class (sa/frame.py: a pure-Python stand-in for the pandas objects, compared with pandas 2.2 by a script outside the checks), including values that are false as booleans and models numbered 999 / 9999.",
     "note": "Trusted: mmcif quoting/tokenising, pandas coercions. Not decided: values that overflow their width (excluded by the statement), end-to-end equality.",
-    "technique": "static analysis: string-width abstract interpretation of the formatter, slice-table agreement, guarded-emission sequence vs record automaton, sibling agreement of field maps",
+    "technique": "static analysis: string-width abstract interpretation of the formatter, slice-table agreement, guarded-emission sequence vs record automaton, sibling agreement of field maps + whole-function evaluation of the ast on one table per input class over a pandas stand-in",
 }
